@@ -8,11 +8,11 @@ use crate::ck;
 use crate::hashers;
 use crate::interp::*;
 use crate::model::Ent;
-use crate::tracked::{self, Cb, Owner, TKey, TVal, INJECTED};
+use crate::tracked::{self, Cb, Owner, TKey, TVal, INJECTED, NCB};
 
 pub struct Run<R> {
     pub ret: Option<R>,
-    pub counts: [u64; 9],
+    pub counts: [u64; NCB],
     pub builds: u64,
     pub panic: Option<String>,
     pub injected: bool,
@@ -70,8 +70,11 @@ impl World {
         let mut cache = self.sides[a].cache.take().expect("cache present");
         hashers::reset_builds();
         tracked::open_window(allowed);
-        if let Some((cb, nth, _)) = inject {
+        if let Some((cb, nth, late)) = inject {
             tracked::arm(cb, nth as u64);
+            if cb == Cb::Closure && late {
+                tracked::arm_sticky();
+            }
         }
         let r = catch_unwind(AssertUnwindSafe(|| f(&mut cache)));
         let still_armed = tracked::disarm();
@@ -128,6 +131,9 @@ impl World {
             lost_ok: &BTreeSet<u16>, strict_contents: bool) {
         self.leaks_allowed = true;
         self.stats.ev("inject.fired");
+        if cb.is_drop() {
+            self.drop_panic_seen = true;
+        }
         self.collect_vios("injected panic");
         self.post_panic = true;
         let nfails = self.fails.len();
@@ -143,6 +149,21 @@ impl World {
             }
             // a shared-reference operation must leave the cache as it was, panic or not
             if readonly && !f.has("C19") { f.tags.push("C19"); }
+        }
+        if cb.is_drop() {
+            // A destructor is not among the callbacks C16 enumerates: what goes
+            // wrong after a panicking destructor is judged by the properties that
+            // are stated for every history - memory safety and coherence (C07),
+            // exactly-once ownership (C06, leaks tolerated), consistent
+            // bookkeeping of what remains (C02) - and by the operation's own.
+            let extra: Option<&'static str> = match name { "clear" | "insert" | "set_max_size" | "mutate" => Some("C07"), "drain" | "into_iter" | "iterwalk" => Some("C12"), _ => None };
+            for f in self.fails.iter_mut().skip(nfails) {
+                f.tags.retain(|t| *t != "C16");
+                if let Some(t) = extra { if !f.has(t) { f.tags.push(t); } }
+                if f.tags.is_empty() { f.tags.push("C07"); }
+                f.sig = format!("{}@drop-panic", f.sig);
+            }
+            self.stats.ev("inject.fired-in-destructor");
         }
         if readonly {
             if let Some(o) = &obs {
@@ -172,7 +193,7 @@ impl World {
             ck!(self, now == exp_sorted, ["C16"], "panic-lost",
                 "after a panic in the {} closure the keys are {:?}, expected {:?}", name, brief(&now), brief(&exp_sorted));
         }
-        if self.want("C16") {
+        if self.want("C16") && !cb.is_drop() {
             let changed = obs != pre.obs;
             let class = if nth == 1 { "1" } else if nth == 2 { "2" } else { "3+" };
             if changed || matches!(cb, Cb::Closure | Cb::Pred) || nth >= 2 {
